@@ -55,6 +55,7 @@ theorem enabled_iff (c : Cfg) (s : State) (u : Tid) : (step c s u).isSome ↔ en
     | some e => by_cases he : e ∈ s.evSet <;> simp [he]
   case wBody => split <;> simp
   case eTestW => split <;> simp
+  case cPrune => split <;> simp
   case ePop => cases s.waiters <;> simp
   case eSet => cases s.writeEvent <;> simp
   all_goals simp
